@@ -1881,6 +1881,10 @@ def result_consumed(fu, call_block, kind='result'):
 	seed = call_result_seed(fu, call_block, kind)
 	if seed is None:
 		return ('stored', 'assigned into a place')
+	return value_consumed(fu, seed)
+
+def value_consumed(fu, seed):
+	"""what happens to the value held in the seed local (local, kind, neg): see result_consumed"""
 	ds, taint = decisions_on(fu, [seed])
 	if ds:
 		return ('branched', 'line %d' % fu.line_of(ds[0].b))
